@@ -8,6 +8,7 @@ import (
 // RandomConfig describes one randomised Byzantine run driven online on the real objects (binding B2):
 // the adversary draws its scripts from the grammar of DKGNet.tla, the scheduler draws the delivery order.
 type RandomConfig struct {
+	Grid   int // >= 0: systematic strategy number for the first Byzantine participant (see gridScript); -1: random
 	ID     string
 	Proto  string
 	N, T   int
@@ -216,7 +217,15 @@ func RunRandom(cfg RandomConfig) (Result, Script) {
 	s.res.Events = append(s.res.Events, Event{A: "reset", P: -1, S: -1, ID: sc.ID, Out: []Msg{}, Fl: [][]any{}})
 	for s.round <= 3 {
 		if len(sc.Byz) > 0 {
-			s.commit(s.randScript(g, cfg))
+			script := s.randScript(g, cfg)
+			if cfg.Grid >= 0 {
+				script[strconv.Itoa(sc.Byz[0])] = s.gridScript(cfg.Grid, sc.Byz[0])
+			}
+			s.commit(script)
+		}
+		order := -1
+		if cfg.Grid >= 0 {
+			order = (cfg.Grid / GridStrategies) % 3
 		}
 		for !s.quiet() {
 			type cand struct {
@@ -235,6 +244,22 @@ func RunRandom(cfg RandomConfig) (Result, Script) {
 				}
 			}
 			c := cs[g.Intn(len(cs))]
+			switch order {
+			case 0: // broadcasts before private messages, lowest sender and receiver first
+				c = cs[0]
+				for _, x := range cs {
+					if x.b && !c.b {
+						c = x
+					}
+				}
+			case 1: // private messages before broadcasts, highest first
+				c = cs[len(cs)-1]
+				for i := len(cs) - 1; i >= 0; i-- {
+					if !cs[i].b && c.b {
+						c = cs[i]
+					}
+				}
+			}
 			s.deliver(c.b, c.p, c.src, s.round+g.Intn(cfg.Slack+1))
 		}
 		s.advance()
@@ -254,3 +279,104 @@ func RunRandom(cfg RandomConfig) (Result, Script) {
 	s.res.Steps = len(sc.Steps)
 	return s.res, sc
 }
+
+// ---------- systematic strategies of one Byzantine dealer (binding B2, grid mode) ----------
+
+// GridStrategies = 5 (vector) x 5 (share to the first honest participant) x 2 (share to the second) x 4 (early answer)
+// x 6 (answer policy) x 2 (own complaints); three delivery orders on top.
+const GridStrategies = 5 * 5 * 2 * 4 * 6 * 2
+
+func (s *Sim) gridScript(grid int, b int) ByzScript {
+	k := grid % GridStrategies
+	dig := func(base int) int { d := k % base; k /= base; return d }
+	vecB, sh1, sh2, early, policy, compl := dig(5), dig(5), dig(2), dig(4), dig(6), dig(2)
+	bs := ByzScript{Pv: map[string][]Msg{}}
+	isDealer := false
+	for _, d := range s.dealers {
+		isDealer = isDealer || d == b
+	}
+	var h1, h2 = -1, -1
+	for _, p := range s.honest {
+		if p == b {
+			continue
+		}
+		if h1 < 0 {
+			h1 = p
+		} else if h2 < 0 {
+			h2 = p
+		}
+	}
+	if isDealer && s.round == 1 {
+		earlyMsg := []Msg{nil2msg(), {"answer", "ok", "P1", h1}, {"answer", "ok", "P2", h1}, {"answer", "badscalar", "none", h1}}[early]
+		if early != 0 && policy%2 == 0 {
+			bs.Bc = append(bs.Bc, earlyMsg) // before the vector
+		}
+		switch vecB {
+		case 0:
+			bs.Bc = append(bs.Bc, Msg{"vec", "ok", "P1", -1})
+		case 1: // omitted in round 1, sent late
+		case 2:
+			bs.Bc = append(bs.Bc, Msg{"vec", "bad", "none", -1})
+		case 3:
+			bs.Bc = append(bs.Bc, Msg{"vec", "ok", "P2", -1})
+		case 4:
+			bs.Bc = append(bs.Bc, Msg{"vec", "ok", "P1", -1}, Msg{"vec", "ok", "P2", -1})
+		}
+		if early != 0 && policy%2 == 1 {
+			bs.Bc = append(bs.Bc, earlyMsg) // after the vector
+		}
+		for _, p := range s.honest {
+			kind := 0
+			if p == h1 {
+				kind = sh1
+			} else if p == h2 {
+				kind = sh2 * 3
+			}
+			ps := strconv.Itoa(p)
+			switch kind {
+			case 0:
+				bs.Pv[ps] = []Msg{{"share", "ok", "P1", -1}}
+			case 1: // withheld
+			case 2:
+				bs.Pv[ps] = []Msg{{"share", "bad", "none", -1}}
+			case 3:
+				bs.Pv[ps] = []Msg{{"share", "ok", "P2", -1}}
+			case 4:
+				bs.Pv[ps] = []Msg{{"share", "ok", "P1", -1}, {"share", "ok", "P2", -1}}
+			}
+		}
+	}
+	if isDealer && s.round == 2 && vecB == 1 {
+		bs.Bc = append(bs.Bc, Msg{"vec", "ok", "P1", -1})
+	}
+	if isDealer && s.round >= 2 {
+		for _, j := range s.pendingComplainers(b) {
+			switch policy {
+			case 0: // never answers
+			case 1: // answers correctly as soon as possible
+				bs.Bc = append(bs.Bc, Msg{"answer", "ok", "P1", j})
+			case 2: // answers correctly but only in the last round
+				if s.round == 3 {
+					bs.Bc = append(bs.Bc, Msg{"answer", "ok", "P1", j})
+				}
+			case 3: // answers with a share of another polynomial
+				bs.Bc = append(bs.Bc, Msg{"answer", "ok", "P2", j})
+			case 4:
+				bs.Bc = append(bs.Bc, Msg{"answer", "badscalar", "none", j})
+			case 5: // answers twice
+				bs.Bc = append(bs.Bc, Msg{"answer", "ok", "P1", j}, Msg{"answer", "ok", "P2", j})
+			}
+		}
+	}
+	if compl == 1 && s.round <= 2 {
+		for _, d := range s.dealers {
+			if d != b {
+				bs.Bc = append(bs.Bc, Msg{"complaint", "ok", "none", d})
+				break
+			}
+		}
+	}
+	return bs
+}
+
+func nil2msg() Msg { return Msg{} }
